@@ -182,3 +182,32 @@ def implicit_none_paths(f: Func):
         if n.kind == "return" and n.note == "implicit-end" and cfg.reachable(n):
             return True
     return False
+
+
+def uninitialised_fields(f: Func):
+    """[(field, return node)] for an `__init__`: fields `self.X` it assigns somewhere but not on every path to a
+    normal return - a method reading the field then raises AttributeError for the objects built along that path"""
+    cfg = cfg_of(f.node)
+    me = f.params[0] if f.params else "self"
+    stores: dict[str, set[int]] = {}
+    for n in cfg.nodes:
+        a = n.ast
+        if a is None or n.kind in ("branch", "def"):
+            continue
+        tgts = []
+        if isinstance(a, ast.Assign):
+            tgts = a.targets
+        elif isinstance(a, (ast.AnnAssign, ast.AugAssign)):
+            tgts = [a.target] if not (isinstance(a, ast.AnnAssign) and a.value is None) else []
+        for t in tgts:
+            for x in (t.elts if isinstance(t, (ast.Tuple, ast.List)) else [t]):
+                if isinstance(x, ast.Attribute) and isinstance(x.value, ast.Name) and x.value.id == me:
+                    stores.setdefault(x.attr, set()).add(n.id)
+    out = []
+    for fld, defs in sorted(stores.items()):
+        reach = cfg.forward(cfg.entry, avoid=defs)
+        for n in cfg.nodes:
+            if n.kind == "return" and n.id in reach:
+                out.append((fld, n))
+                break
+    return out
